@@ -13,7 +13,8 @@ From V.c13 Require Import C13Model.
 From V.c17 Require Import C17Spec C17Model C17TypedModel.
 From V.c18 Require C18Model.
 From V.c14 Require C14Spec C14Model.
-From V.c16 Require Import C16AuxModel C16AuxSeiProofs C16AuxExtractProofs C16AuxAacProofs C16AuxScanProofs C16AuxStreamProofs.
+From V.c16 Require Import C16AuxModel C16AuxSeiProofs C16AuxExtractProofs C16AuxAacProofs C16AuxScanProofs C16AuxStreamProofs
+  C16SeiStrModel C16SeiStrProofs.
 
 (* ------------------------------------------------------------------ sei.ExtractSEIData *)
 (* every byte list: the Go-shaped run returns what the C17 model returns; never out of fuel;
@@ -245,3 +246,52 @@ Example ex_annexb_hostile :
   C14Model.to_nalu_sample [0; 0; 0; 0; 0; 0; 0; 0; 0; 0; 0; 0; 0; 0; 0; 0; 0; 0; 0; 1] =
     Ok [0; 0; 0; 0; 0; 0; 0; 0; 0; 0; 0; 0; 0; 0; 0; 0; 0; 0; 0; 1].
 Proof. vm_compute. repeat split. Qed.
+
+(* ------------------------------------------------------------------ String / Payload of the remaining messages
+   (C16SeiStrModel.v).  The Payload methods of sei137.go / sei144.go fill a fixed buffer through sub-slices at a
+   running position: every slice expression is in range for EVERY message value, and the bytes are those of the C17
+   model; composed with the decoders for every payload. *)
+Theorem C16_sei_MasteringDisplayColourVolume_Payload_total : forall m : mdcv,
+  mdcv_payload_p m = Ok (mdcv_payload m) /\ lenN (mdcv_payload m) = 24.
+Proof. exact mdcv_payload_p_ok. Qed.
+Print Assumptions C16_sei_MasteringDisplayColourVolume_Payload_total.
+
+Theorem C16_sei_ContentLightLevel_Payload_total : forall m : cll,
+  cll_payload_p m = Ok (cll_payload m) /\ lenN (cll_payload m) = 4.
+Proof. exact cll_payload_p_ok. Qed.
+Print Assumptions C16_sei_ContentLightLevel_Payload_total.
+
+Theorem C16_sei_MDCV_decode_then_Payload_total : forall p : list N,
+  mdcv_decode_p p = Err \/ exists m, mdcv_decode_p p = Ok m /\ mdcv_payload_p m = Ok (mdcv_payload m).
+Proof. exact mdcv_decode_payload_total. Qed.
+Print Assumptions C16_sei_MDCV_decode_then_Payload_total.
+
+Theorem C16_sei_CLL_decode_then_Payload_total : forall p : list N,
+  cll_decode_p p = Err \/ exists m, cll_decode_p p = Ok m /\ cll_payload_p m = Ok (cll_payload m).
+Proof. exact cll_decode_payload_total. Qed.
+Print Assumptions C16_sei_CLL_decode_then_Payload_total.
+
+(* String of what the user-data decoders return, for EVERY payload: no partial operation fails (payload[16:] of the
+   unregistered message) and the text rendered (hex / %q / %d fields) is at most 4 bytes per payload byte + 200 *)
+Theorem C16_sei_RegisteredSEI_String_total : forall pl : list N,
+  decode_registered_p pl = Err \/
+  exists m t c, decode_registered_p pl = Ok (m, t) /\ pass_string_cost m = Ok c /\ c <= 2 * lenN pl + 200.
+Proof. exact registered_string_total. Qed.
+Print Assumptions C16_sei_RegisteredSEI_String_total.
+
+Theorem C16_sei_UnregisteredSEI_String_total : forall pl : list N,
+  decode_unregistered_p pl = Err \/
+  exists m c, decode_unregistered_p pl = Ok m /\ pass_string_cost m = Ok c /\ c <= 4 * lenN pl + 200.
+Proof. exact unregistered_string_total. Qed.
+Print Assumptions C16_sei_UnregisteredSEI_String_total.
+
+Theorem C16_sei_SEIData_String_linear : forall pl : list N, sei_data_string_cost pl <= 2 * lenN pl + 100.
+Proof. exact sei_data_string_bound. Qed.
+Print Assumptions C16_sei_SEIData_String_linear.
+
+Example ex_mdcv_payload :
+  mdcv_payload_p (mkMdcv 1 2 3 4 5 6 7 8 65536 70000) =
+    Ok [0; 1; 0; 2; 0; 3; 0; 4; 0; 5; 0; 6; 0; 7; 0; 8; 0; 1; 0; 0; 0; 1; 17; 112] /\
+  (* the slicing is partial: the same writes into a 23-byte buffer panic *)
+  put_at (repeat 0 23) 20 4 [0; 0; 0; 0] = Panic.
+Proof. vm_compute. split; reflexivity. Qed.
